@@ -409,9 +409,18 @@ func (n *CandidateNode) UpdateFrom(other *CandidateNode, prefs assignPreferences
 		n.Style = other.Style
 	}
 
+	// other may contain n (`.a = .`): take its children as they are now, before n is emptied
+	children := other.Content
+	for p := n.Parent; p != nil; p = p.Parent {
+		if p == other {
+			children = other.Copy().Content
+			break
+		}
+	}
+
 	n.Content = make([]*CandidateNode, 0)
 	n.Kind = other.Kind
-	n.AddChildren(other.Content)
+	n.AddChildren(children)
 
 	n.Value = other.Value
 
